@@ -132,8 +132,115 @@ pub fn vx_remove0(s: &mut String)
     requires old(s)@.len() > 0
     ensures final(s)@ == old(s)@.drop_first()
 { s.remove(0); }
+// String::len is the byte length: at least one byte per char; a lone backslash is one byte
 #[verifier::external_body]
-pub fn vx_byte_len(s: &String) -> (r: usize) ensures r >= s@.len(), (s@.len() > 0 ==> r > 0) { s.len() }
+pub fn vx_byte_len(s: &String) -> (r: usize) ensures r >= s@.len(), (s@.len() > 0 ==> r > 0), (s@.len() == 1 && s@[0] == '\\' ==> r == 1) { s.len() }
+
+// ---- THE SPECIFIED BRACE EXPANSION (C12): one word per alternative, left to right; several groups in a word give the cartesian product
+// (earlier group varies slowest), nesting expands inside out, an empty alternative is an empty text, a backslash keeps the next char,
+// a group without a comma is text. sp_item reads a word (up to the `,`/`}` that closes the alternative it is in, when depth > 0),
+// sp_group reads the alternatives of one group after its `{`; None: no such group (unbalanced).
+pub open spec fn pre_each(x: Seq<char>, g: Seq<Seq<char>>) -> Seq<Seq<char>> { g.map_values(|y: Seq<char>| x + y) }
+pub open spec fn app_each(out: Seq<Seq<char>>, t: Seq<char>) -> Seq<Seq<char>> { out.map_values(|x: Seq<char>| x + t) }
+pub open spec fn wrap_each(out: Seq<Seq<char>>) -> Seq<Seq<char>> { out.map_values(|x: Seq<char>| seq!['{'] + x + seq!['}']) }
+pub open spec fn cross(a: Seq<Seq<char>>, g: Seq<Seq<char>>) -> Seq<Seq<char>>
+    decreases a.len()
+{
+    if a.len() == 0 { Seq::empty() } else { cross(a.drop_last(), g) + pre_each(a.last(), g) }
+}
+pub open spec fn one_empty() -> Seq<Seq<char>> { seq![Seq::<char>::empty()] }
+pub open spec fn sp_item(s: Seq<char>, depth: int, out: Seq<Seq<char>>) -> (Seq<Seq<char>>, Seq<char>)
+    decreases s.len(), 0int
+{
+    if s.len() == 0 { (out, s) }
+    else if depth > 0 && (s[0] == ',' || s[0] == '}') { (out, s) }
+    else {
+        let grp = if s[0] == '{' { sp_group(s.drop_first(), depth + 1, Seq::empty(), false) } else { None };
+        if grp.is_some() && grp.unwrap().1.len() < s.len() {
+            sp_item(grp.unwrap().1, depth, cross(out, grp.unwrap().0))
+        } else if s[0] == '\\' && s.len() > 1 {
+            sp_item(s.skip(2), depth, app_each(out, seq!['\\', s[1]]))
+        } else {
+            sp_item(s.drop_first(), depth, app_each(out, seq![s[0]]))
+        }
+    }
+}
+pub open spec fn sp_group(s: Seq<char>, depth: int, out: Seq<Seq<char>>, comma: bool) -> Option<(Seq<Seq<char>>, Seq<char>)>
+    decreases s.len(), 1int
+{
+    if s.len() == 0 { None }
+    else {
+        let it = sp_item(s, depth, one_empty());
+        if it.1.len() == 0 || it.1.len() > s.len() { None }
+        else if it.1[0] == '}' {
+            if comma { Some((out + it.0, it.1.drop_first())) } else { Some((wrap_each(out + it.0), it.1.drop_first())) }
+        }
+        else if it.1[0] == ',' { sp_group(it.1.drop_first(), depth, out + it.0, true) }
+        else { None }
+    }
+}
+// the words an unquoted word `t` expands to
+pub open spec fn brace_words(t: Seq<char>) -> Seq<Seq<char>> { sp_item(t, 0, one_empty()).0 }
+
+pub proof fn lemma_quote_bs()
+    ensures "\\"@ == seq!['\\'], "{"@ == seq!['{'], "}"@ == seq!['}'], forall|c: char| #[trigger] ("\\"@ + seq![c]) == seq!['\\', c],
+{
+    reveal_strlit("\\"); reveal_strlit("{"); reveal_strlit("}");
+    assert("\\"@ =~= seq!['\\']); assert("{"@ =~= seq!['{']); assert("}"@ =~= seq!['}']);
+    assert forall|c: char| #[trigger] ("\\"@ + seq![c]) == seq!['\\', c] by { assert("\\"@ + seq![c] =~= seq!['\\', c]); }
+}
+pub proof fn lemma_cross_step(a: Seq<Seq<char>>, g: Seq<Seq<char>>, i: int)
+    requires 0 <= i < a.len(),
+    ensures cross(a.take(i + 1), g) == cross(a.take(i), g) + pre_each(a[i], g), cross(a.take(0), g) == Seq::<Seq<char>>::empty(),
+{
+    assert(a.take(i + 1).drop_last() =~= a.take(i));
+    assert(a.take(i + 1).last() == a[i]);
+}
+pub proof fn lemma_each_step(x: Seq<char>, g: Seq<Seq<char>>, j: int)
+    ensures
+        pre_each(x, g.take(0)) == Seq::<Seq<char>>::empty(), app_each(g.take(0), x) == Seq::<Seq<char>>::empty(), wrap_each(g.take(0)) == Seq::<Seq<char>>::empty(),
+        0 <= j < g.len() ==> pre_each(x, g.take(j + 1)) == pre_each(x, g.take(j)).push(x + g[j]),
+        0 <= j < g.len() ==> app_each(g.take(j + 1), x) == app_each(g.take(j), x).push(g[j] + x),
+        0 <= j < g.len() ==> wrap_each(g.take(j + 1)) == wrap_each(g.take(j)).push(seq!['{'] + g[j] + seq!['}']),
+        g.take(g.len() as int) == g,
+{
+    assert(pre_each(x, g.take(0)) =~= Seq::<Seq<char>>::empty());
+    assert(app_each(g.take(0), x) =~= Seq::<Seq<char>>::empty());
+    assert(wrap_each(g.take(0)) =~= Seq::<Seq<char>>::empty());
+    assert(g.take(g.len() as int) =~= g);
+    if 0 <= j < g.len() {
+        assert(pre_each(x, g.take(j + 1)) =~= pre_each(x, g.take(j)).push(x + g[j]));
+        assert(app_each(g.take(j + 1), x) =~= app_each(g.take(j), x).push(g[j] + x));
+        assert(wrap_each(g.take(j + 1)) =~= wrap_each(g.take(j)).push(seq!['{'] + g[j] + seq!['}']));
+    }
+}
+// validation of the specification itself: it computes the expansions the property statement describes (one word per alternative in order,
+// cartesian product with the earlier group varying slowest, nesting, empty alternative, group without comma is text, unbalanced is text)
+pub proof fn lemma_brace_spec_examples()
+{
+    // a{b,c}d -> abd acd
+    assert(brace_words(seq!['a','{','b',',','c','}','d']) =~~= seq![seq!['a','b','d'], seq!['a','c','d']]) by (compute);
+    // {a,b}{1,2} -> a1 a2 b1 b2
+    assert(brace_words(seq!['{','a',',','b','}','{','1',',','2','}']) =~~= seq![seq!['a','1'], seq!['a','2'], seq!['b','1'], seq!['b','2']]) by (compute);
+    // {a,{b,c}d} -> a bd cd
+    assert(brace_words(seq!['{','a',',','{','b',',','c','}','d','}']) =~~= seq![seq!['a'], seq!['b','d'], seq!['c','d']]) by (compute);
+    // x{,y} -> x xy
+    assert(brace_words(seq!['x','{',',','y','}']) =~~= seq![seq!['x'], seq!['x','y']]) by (compute);
+    // a{b}c{d,e} -> a{b}cd a{b}ce
+    assert(brace_words(seq!['a','{','b','}','c','{','d',',','e','}']) =~~= seq![seq!['a','{','b','}','c','d'], seq!['a','{','b','}','c','e']]) by (compute);
+    // {a,b -> {a,b
+    assert(brace_words(seq!['{','a',',','b']) =~~= seq![seq!['{','a',',','b']]) by (compute);
+    // {a\\,b,c} -> a\\,b c
+    assert(brace_words(seq!['{','a','\\',',','b',',','c','}']) =~~= seq![seq!['a','\\',',','b'], seq!['c']]) by (compute);
+    // p{a,b}q{c,d}r -> paqcr paqdr pbqcr pbqdr
+    assert(brace_words(seq!['p','{','a',',','b','}','q','{','c',',','d','}','r']) =~~= seq![seq!['p','a','q','c','r'], seq!['p','a','q','d','r'], seq!['p','b','q','c','r'], seq!['p','b','q','d','r']]) by (compute);
+}
+pub proof fn lemma_strs_push(v: Seq<String>)
+    ensures forall|x: String| #[trigger] strs(v.push(x)) == strs(v).push(x@), strs(Seq::<String>::empty()) == Seq::<Seq<char>>::empty(),
+{
+    assert forall|x: String| #[trigger] strs(v.push(x)) == strs(v).push(x@) by { assert(strs(v.push(x)) =~= strs(v).push(x@)); }
+    assert(strs(Seq::<String>::empty()) =~= Seq::<Seq<char>>::empty());
+}
 #[verifier::external_body]
 pub fn vx_clone_strings(v: &Vec<String>) -> (r: Vec<String>) ensures strs(r@) == strs(v@), r@.len() == v@.len() { v.clone() }
 
@@ -283,7 +390,9 @@ expand_brace = Fn(S, 'expand_brace',
     ensures=[
         ('C12+C13+C01.brace.result_is_splice',
          'exists|b: BV| buff_ok(b, old(tokens)@.len() as int) && tsv(final(tokens)@) == spliced(tsv(old(tokens)@), b, false) '
-         '&& (forall|m: int| 0 <= m < b.len() ==> unq(old(tokens)@[(#[trigger] b[m]).0]) && spec_need_expand_brace(old(tokens)@[b[m].0].1@)) '
+         # ... and the words put in place of such a word are exactly its specified expansion
+         '&& (forall|m: int| 0 <= m < b.len() ==> unq(old(tokens)@[(#[trigger] b[m]).0]) && spec_need_expand_brace(old(tokens)@[b[m].0].1@) '
+         '&& b[m].1 == brace_words(old(tokens)@[b[m].0].1@)) '
          '&& (forall|k: int| 0 <= k < old(tokens)@.len() && unq(old(tokens)@[k]) && spec_need_expand_brace(old(tokens)@[k].1@) ==> in_buff(b, k))'),
     ],
     loops={
@@ -292,7 +401,8 @@ expand_brace = Fn(S, 'expand_brace',
             ('C05.inv.brace.token_len', 'forall|i: int| 0 <= i < tokens@.len() ==> (#[trigger] tokens@[i]).1@.len() < 0x7fff_fff0'),
             ('C12+C13.inv.brace.buff_ok', 'buff_ok(bview(buff@), __i0 as int)'),
             ('C12+C13+C01.inv.brace.only_unquoted',
-             'forall|m: int| 0 <= m < buff@.len() ==> unq(tokens@[(#[trigger] bview(buff@)[m]).0]) && spec_need_expand_brace(tokens@[bview(buff@)[m].0].1@)'),
+             'forall|m: int| 0 <= m < buff@.len() ==> unq(tokens@[(#[trigger] bview(buff@)[m]).0]) && spec_need_expand_brace(tokens@[bview(buff@)[m].0].1@) '
+             '&& bview(buff@)[m].1 == brace_words(tokens@[bview(buff@)[m].0].1@)'),
             ('C12.inv.brace.all_found',
              'forall|k: int| 0 <= k < __i0 && unq(tokens@[k]) && spec_need_expand_brace(tokens@[k].1@) ==> in_buff(bview(buff@), k)'),
         ]),
@@ -398,20 +508,60 @@ BRACE_RW = [
     Rw(r'\b(ss|sss)\.remove\(0\)', r'vx_remove0(&mut \1)', regex=True, rule='R12', why='String::remove(0) (first char) through a shim: requires non-empty'),
     Rw(r'\bss\.len\(\)', 'vx_byte_len(&ss)', regex=True, required=False, rule='R12', why='String::len is the byte length'),
 ]
-brace_getitem = Fn(S, 'brace_getitem', ret='r', rewrites=BRACE_RW,
+brace_getitem = Fn(S, 'brace_getitem', ret='r', rewrites=BRACE_RW, props=('C12',),
     requires=[('C05.pre.brace.depth', '0 <= depth && depth as int + s@.len() < 0x7fff_ffff')],
     ensures=[('C05.brace.item.rest_not_longer', 'r.1@.len() <= s@.len()'),
-             ('C05.brace.item.stops_at_sep', 'depth > 0 ==> r.1@.len() == 0 || r.1@[0] == \',\' || r.1@[0] == \'}\'')],
+             ('C05.brace.item.stops_at_sep', 'depth > 0 ==> r.1@.len() == 0 || r.1@[0] == \',\' || r.1@[0] == \'}\''),
+             # C12: the words are the specified ones, for every word
+             ('C12.brace.item.words_are_the_specified_expansion', '(strs(r.0@), r.1@) == sp_item(s@, depth as int, one_empty())')],
     decreases='s@.len(), 0int',
     let_types={'tmp_out': 'Vec<String>', 'result': 'Vec<String>'},
-    loops={0: Loop(invariant=[('C05.inv.brace.item', 'ss@.len() <= s@.len() && 0 <= depth && depth as int + s@.len() < 0x7fff_ffff')], decreases='ss@.len()')},
+    loops={0: Loop(invariant=[('C05.inv.brace.item', 'ss@.len() <= s@.len() && 0 <= depth && depth as int + s@.len() < 0x7fff_ffff'),
+                              # what is left to read, continued from the words built so far, gives the specified result
+                              ('C12.inv.brace.item.rest_continues_the_words_so_far', 'sp_item(ss@, depth as int, strs(out@)) == sp_item(s@, depth as int, one_empty())')],
+                   decreases='ss@.len()'),
+           1: Loop(invariant=[('C12.inv.brace.item.product_outer', 'strs(tmp_out@) == cross(strs(out@).take(__i1 as int), strs(out_group@))')]),
+           2: Loop(invariant=[('C12.inv.brace.item.product_inner',
+                               '1 <= __i1 <= out@.len() && x@ == strs(out@)[__i1 - 1] && strs(tmp_out@) == cross(strs(out@).take(__i1 - 1), strs(out_group@)) + pre_each(x@, strs(out_group@).take(__i2 as int))')]),
+           3: Loop(invariant=[('C12.inv.brace.item.append', 'strs(result@) == app_each(strs(out@).take(__i3 as int), tmp@)')])},
+    hints={'after-text:vec![String::new()];': 'assert(strs(out@) =~= one_empty());',
+           'loop-0-body-entry': 'RAW: let ghost __ss0 = ss@; let ghost __o0 = strs(out@);',
+           'loop-1-body-entry': 'lemma_cross_step(strs(out@), strs(out_group@), __i1 as int); lemma_each_step(strs(out@)[__i1 as int], strs(out_group@), 0);',
+           'loop-2-body-entry': 'lemma_each_step(x@, strs(out_group@), __i2 as int); lemma_strs_push(tmp_out@);',
+           'loop-2-exit': 'lemma_each_step(x@, strs(out_group@), 0);',
+           'loop-1-exit': 'lemma_each_step(Seq::empty(), strs(out@), 0); assert(__ss0.drop_first() == sss@);',
+           # a group was read: the words so far are multiplied with its alternatives, reading goes on behind its `}`
+           'before-text:continue;': 'assert(sp_item(__ss0, depth as int, __o0) == sp_item(ss@, depth as int, strs(out@)));',
+           'loop-3-body-entry': 'lemma_each_step(tmp@, strs(out@), __i3 as int); lemma_strs_push(result@);',
+           'loop-3-exit': 'lemma_each_step(tmp@, strs(out@), 0);',
+           # one char (or a backslash and the char it keeps) is appended to every word so far
+           'after-text:out = result;': 'lemma_quote_bs(); if __ss0.len() >= 2 { assert(__ss0.drop_first().drop_first() =~= __ss0.skip(2)); } '
+                                       'assert(sp_item(__ss0, depth as int, __o0) == sp_item(ss@.drop_first(), depth as int, strs(out@)));',
+           },
 )
-brace_getgroup = Fn(S, 'brace_getgroup', ret='r', rewrites=BRACE_RW,
+brace_getgroup = Fn(S, 'brace_getgroup', ret='r', rewrites=BRACE_RW, props=('C12',),
     requires=[('C05.pre.brace.depth_g', '1 <= depth && depth as int + s@.len() < 0x7fff_ffff')],
-    ensures=[('C05.brace.group.rest_not_longer', 'match r { Some(p) => p.1@.len() <= s@.len(), None => true }')],
+    ensures=[('C05.brace.group.rest_not_longer', 'match r { Some(p) => p.1@.len() <= s@.len(), None => true }'),
+             ('C12.brace.group.alternatives_are_the_specified_ones',
+              'match r { Some(p) => sp_group(s@, depth as int, Seq::empty(), false) == Some((strs(p.0@), p.1@)), None => sp_group(s@, depth as int, Seq::empty(), false).is_none() }')],
     decreases='s@.len(), 1int',
     let_types={'result': 'Vec<String>'},
-    loops={0: Loop(invariant=[('C05.inv.brace.group', 'ss@.len() <= s@.len() && 1 <= depth && depth as int + s@.len() < 0x7fff_ffff')], decreases='ss@.len()')},
+    loops={0: Loop(invariant=[('C05.inv.brace.group', 'ss@.len() <= s@.len() && 1 <= depth && depth as int + s@.len() < 0x7fff_ffff'),
+                              ('C12.inv.brace.group.rest_continues_the_alternatives_so_far',
+                               'sp_group(ss@, depth as int, strs(out@), comma) == sp_group(s@, depth as int, Seq::empty(), false)')],
+                   # the loop is left (condition or break) only when the text ran out before the group was closed: no group
+                   ensures=[('C12.brace.group.loop_left_only_without_a_group', 'sp_group(s@, depth as int, Seq::empty(), false).is_none()')],
+                   decreases='ss@.len()'),
+           1: Loop(invariant=[('C12.inv.brace.group.collect', 'strs(out@) == __out0 + strs(g@).take(__i1 as int)')]),
+           2: Loop(invariant=[('C12.inv.brace.group.wrap', 'strs(result@) == wrap_each(strs(out@).take(__i2 as int))')])},
+    hints={'fn-entry': 'lemma_strs_push(Seq::empty());',
+           'loop-0-body-entry': 'RAW: let ghost __ss0 = ss@; let ghost __o0 = strs(out@);',
+           'before-text:let mut __i1: usize = 0;': 'RAW: let ghost __out0 = strs(out@);',
+           'loop-1-body-entry': 'lemma_strs_push(out@); assert(strs(g@).take(__i1 + 1) =~= strs(g@).take(__i1 as int).push(g@[__i1 as int]@));',
+           'loop-1-exit': 'assert(strs(g@).take(g@.len() as int) =~= strs(g@));',
+           'loop-2-body-entry': 'lemma_quote_bs(); lemma_each_step(Seq::empty(), strs(out@), __i2 as int); lemma_strs_push(result@);',
+           'loop-2-exit': 'lemma_each_step(Seq::empty(), strs(out@), 0);',
+           },
 )
 
 UNIT = Unit('U-EXP1', TEMPLATE, fns=[common.has_operator_fn(), brace_getitem, brace_getgroup, expand_brace, expand_glob, expand_brace_range], props=('C12', 'C13', 'C01', 'C05'))
